@@ -159,6 +159,9 @@ def perftrack(ctx) -> None:
 
 
 def run(ctx) -> None:
+    from . import C08
+
+    C08.eqhash_agreement(ctx, ('forml.io.asset',), floor=3)
     drivers(ctx)
     persistent(ctx)
     chain(ctx)
